@@ -24,7 +24,7 @@ REQUIRED = ["trg", "pending", "src_i", "api_index", "api_sources"]
 
 
 def n_cases(tier):
-    return 160 if tier == "quick" else 2400
+    return 1000 if tier == "quick" else 12000
 
 
 def gen_case(rng, tier, idx):
